@@ -35,15 +35,21 @@ package martian
 // ---------------------------------------------------------------------------------------------
 // Modifiers and the network, as the proxy sees them (assumed for arbitrary user code).
 
+// reqSeq / resSeq: the modifier invoked by the n-th request / response modifier call; lastReqErr / lastResErr: what
+// the latest call returned (used by the composites: fifo, priority, filter).
+//@ ghost var reqSeq gmap[int]RequestModifier
+//@ ghost var resSeq gmap[int]ResponseModifier
+//@ ghost var lastReqErr error
+//@ ghost var lastResErr error
 //@ iface RequestModifier.ModifyRequest
 //@   requires req != nil
-//@   modifies nReq, http.Request.*, url.URL.*, Session.hijacked, Context.skipRoundTrip, Context.skipLogging, Context.apiRequest
-//@   ensures nReq == old(nReq) + 1
+//@   modifies nReq, reqSeq, lastReqErr, http.Request.*, url.URL.*, Session.hijacked, Context.skipRoundTrip, Context.skipLogging, Context.apiRequest
+//@   ensures nReq == old(nReq) + 1 && reqSeq == upd(old(reqSeq), old(nReq), self) && lastReqErr == result
 //@   ensures req.URL != nil && req.Header != nil && req.Body != nil
 //@ iface ResponseModifier.ModifyResponse
 //@   requires res != nil
-//@   modifies nRes, http.Response.*, Session.hijacked, Context.skipRoundTrip, Context.skipLogging, Context.apiRequest
-//@   ensures nRes == old(nRes) + 1
+//@   modifies nRes, resSeq, lastResErr, http.Response.*, Session.hijacked, Context.skipRoundTrip, Context.skipLogging, Context.apiRequest
+//@   ensures nRes == old(nRes) + 1 && resSeq == upd(old(resSeq), old(nRes), self) && lastResErr == result
 //@   ensures res.Body != nil && res.Header != nil
 
 //@ extern iface http.RoundTripper.RoundTrip
@@ -203,7 +209,7 @@ package martian
 //@   noframe
 //@   requires proxyReady(p) && ctxIdle(ctx) && sessionIdle(ctx.session) && conn != nil && brw != nil && brw.Writer != nil && brw.Reader != nil
 //@   requires !ctx.session.hijacked && secureInv(ctx.session)
-//@   modifies nReq, nRes, nUp, nWrite, bufio.Writer.gFlushed, bufio.Writer.gFailed, wroteErr, gotReq, up0, res0, wr0, didLink, tunnelUp, tunnelConn, dialedConn, net.Conn.connClosed, eofSignalN, closingSeen, nConnClose, nWarn, lastWarnHeader, ctxs[*], ctxmu.wheld, ctxmu.rheld
+//@   modifies nReq, nRes, reqSeq, resSeq, lastReqErr, lastResErr, nUp, nWrite, bufio.Writer.gFlushed, bufio.Writer.gFailed, wroteErr, gotReq, up0, res0, wr0, didLink, tunnelUp, tunnelConn, dialedConn, net.Conn.connClosed, eofSignalN, closingSeen, nConnClose, nWarn, lastWarnHeader, ctxs[*], ctxmu.wheld, ctxmu.rheld
 //@   modifies http.Request.*, url.URL.*, http.Response.*, Session.hijacked, Session.secure, Session.conn, Session.brw, Context.skipRoundTrip, Context.skipLogging, Context.apiRequest
 //@   modifies sync.RWMutex.wheld, sync.RWMutex.rheld, dialN, lastDialed, lastDialErr, tls.Conn.gclosed, trafficshape.Conn.Context
 //@   ensures[locks-released] tableIdle() && sessionIdle(ctx.session) && ctxIdle(ctx)
@@ -262,7 +268,7 @@ package martian
 //@   requires proxyReady(p) && ctxIdle(ctx) && sessionIdle(session) && session == ctx.session && conn != nil && brw != nil && brw.Writer != nil && brw.Reader != nil
 //@   requires req != nil && req.URL != nil && req.Header != nil && has(ctxs, req) && ctxs[req] == ctx && allocated(req)
 //@   requires !session.hijacked && secureInv(session)
-//@   modifies nReq, nRes, nUp, nWrite, bufio.Writer.gFlushed, bufio.Writer.gFailed, wroteErr, gotReq, up0, res0, wr0, didLink, tunnelUp, tunnelConn, dialedConn, net.Conn.connClosed, eofSignalN, closingSeen, nConnClose, nWarn, lastWarnHeader, ctxs[*], ctxmu.wheld, ctxmu.rheld
+//@   modifies nReq, nRes, reqSeq, resSeq, lastReqErr, lastResErr, nUp, nWrite, bufio.Writer.gFlushed, bufio.Writer.gFailed, wroteErr, gotReq, up0, res0, wr0, didLink, tunnelUp, tunnelConn, dialedConn, net.Conn.connClosed, eofSignalN, closingSeen, nConnClose, nWarn, lastWarnHeader, ctxs[*], ctxmu.wheld, ctxmu.rheld
 //@   modifies http.Request.*, url.URL.*, http.Response.*, Session.hijacked, Session.secure, Session.conn, Session.brw, Context.skipRoundTrip, Context.skipLogging, Context.apiRequest
 //@   modifies sync.RWMutex.wheld, sync.RWMutex.rheld, dialN, lastDialed, lastDialErr, tls.Conn.gclosed, trafficshape.Conn.Context
 //@   ensures[locks-released] tableIdle() && sessionIdle(session) && ctxIdle(ctx)
@@ -297,7 +303,7 @@ package martian
 //@   serves C01 C02 C07
 //@   noframe
 //@   requires proxyReady(p) && conn != nil && !p.connsMu.held
-//@   modifies nReq, nRes, nUp, nWrite, bufio.Writer.gFlushed, bufio.Writer.gFailed, wroteErr, gotReq, up0, res0, wr0, didLink, tunnelUp, tunnelConn, dialedConn, net.Conn.connClosed, eofSignalN, closingSeen, nConnClose, nWarn, lastWarnHeader, ctxs[*], ctxmu.wheld, ctxmu.rheld
+//@   modifies nReq, nRes, reqSeq, resSeq, lastReqErr, lastResErr, nUp, nWrite, bufio.Writer.gFlushed, bufio.Writer.gFailed, wroteErr, gotReq, up0, res0, wr0, didLink, tunnelUp, tunnelConn, dialedConn, net.Conn.connClosed, eofSignalN, closingSeen, nConnClose, nWarn, lastWarnHeader, ctxs[*], ctxmu.wheld, ctxmu.rheld
 //@   modifies http.Request.*, url.URL.*, http.Response.*, Session.hijacked, Session.secure, Session.conn, Session.brw, Context.skipRoundTrip, Context.skipLogging, Context.apiRequest
 //@   modifies sync.RWMutex.wheld, sync.RWMutex.rheld, dialN, lastDialed, lastDialErr, tls.Conn.gclosed, trafficshape.Conn.Context, p.connsMu.held, net.Conn.connClosed
 //@   ensures[connection-closed-on-every-exit] conn.connClosed
@@ -341,6 +347,9 @@ package martian
 // MultiError (C13): a flat, ordered collection of errors guarded by its mutex.
 
 //@ guarded_by MultiError.errs mu C13
+// gShared: the list belongs to a verifier (it is what Verify* hands out); a list made by NewMultiError is private until
+// its creator returns it.
+//@ ghost field MultiError.gShared bool
 //@ pred merrIdle(m *MultiError) = m != nil && !m.mu.wheld && m.mu.rheld == 0
 //@ pred flat(m *MultiError) = forall i int :: 0 <= i && i < len(m.errs) ==> !typeis(m.errs[i], *MultiError)
 //@ pred errCount(e error) = ite(e == nil, 0, ite(typeis(e, *MultiError), len(as(e, *MultiError).errs), 1))
@@ -348,7 +357,7 @@ package martian
 //@ func NewMultiError
 //@   serves C13
 //@   modifies nothing
-//@   ensures[empty-and-fresh] result != nil && fresh(result) && len(result.errs) == 0 && merrIdle(result)
+//@   ensures[empty-and-fresh] result != nil && fresh(result) && len(result.errs) == 0 && merrIdle(result) && !result.gShared
 
 //@ func (*MultiError).Errors
 //@   serves C13
@@ -364,11 +373,11 @@ package martian
 
 //@ func (*MultiError).Add
 //@   serves C13
-//@   requires merrIdle(merr) && flat(merr) && err != nil
-//@   requires typeis(err, *MultiError) ==> merrIdle(as(err, *MultiError)) && flat(as(err, *MultiError)) && as(err, *MultiError) != merr
+//@   requires merrIdle(merr) && err != nil
+//@   requires typeis(err, *MultiError) ==> merrIdle(as(err, *MultiError)) && as(err, *MultiError) != merr
 //@   modifies merr.errs, merr.mu.wheld, sync.RWMutex.rheld, merr.errs[*]
 //@   ensures[lock-released] merrIdle(merr)
 //@   ensures[flattened-count] len(merr.errs) == old(len(merr.errs)) + old(errCount(err))
-//@   ensures[depth-never-exceeds-one] !typeis(err, *MultiError) ==> flat(merr)
+//@   ensures[depth-never-exceeds-one] old(flat(merr)) && !typeis(err, *MultiError) ==> flat(merr)
 //@   ensures[earlier-errors-kept-in-order] forall i int :: 0 <= i && i < old(len(merr.errs)) ==> merr.errs[i] == old(merr.errs[i])
 //@   ensures[single-error-appended-last] !typeis(err, *MultiError) ==> merr.errs[old(len(merr.errs))] == err
